@@ -26,6 +26,8 @@ def entries():
             patch = f"{INC}/{d}/change{n}.diff"
             if os.path.exists(f"{V}/seeded/{sid}/patch.diff"):
                 patch = f"{V}/seeded/{sid}/patch.diff"  # rebased onto the current tree
+            if not os.path.exists(patch):
+                continue
             out.append(dict(id=sid, prop=prop, patch=patch, demo=f"{INC}/{d}/demo{n}_test.go", notes=f"{INC}/{d}/notes{n}.md", n=n))
     return out
 
@@ -63,6 +65,8 @@ def main():
             if want and e["id"] not in want:
                 continue
             meta = dict(id=e["id"], property=e["prop"], source="fresh sub-agent given only the property text and a scratch worktree")
+            if "-r0-" in e["id"]:
+                meta["source"] = "written by the author of the checks as a canary for a contract (round 0; not a sub-agent)"
             try:
                 pkg, tests = demo_target(e)
             except SystemExit as x:
